@@ -8,64 +8,64 @@ BUILT = os.environ.get("BUILT", "").split() or [l.strip() for l in open(os.path.
 
 P = {
  "C01": dict(cat="exploration", sec="4/C01", tech="runtime monitoring: reference-codec oracle over exhaustive field sweeps + seeded random frames",
-   text="Every frame from complete sweeps of each field (all 65536 addresses, all 256 types, all 256 lengths, all byte values) and 2e5/2e7 random frames is encoded and decoded by the real codec while a hand-written Intel-HEX codec checks every observable (bytes, byte sum, CRLF variant, decoded frame, accessors, owned vs borrowed, Data::try_new bound). Held-on-observed, not a proof: the product space is sampled, each field is swept completely.",
+   text="Every frame from complete sweeps of each field (all 65536 addresses, all 256 types, all 256 lengths, all byte values), the frames with the largest possible byte sums, and 2e5/2e7 random frames is encoded and decoded by the real codec while a hand-written Intel-HEX codec checks every observable (bytes, byte sum, CRLF variant, decoded frame, accessors, owned vs borrowed). Equality itself is checked (clones equal and hash alike; a frame differing in any one field compares unequal). Data::try_new is tried at every length 0..=300 and around every multiple of 2^8, 2^16, 2^24 (thorough: 2^32); Data::from(&[u8; N]) is probed for N up to 256. Held-on-observed, not a proof: the product space is sampled, each field is swept completely.",
    note="Trusted: the reference codec (harness/src/refs.rs, ~80 lines, no shared code); the checked build profile."),
  "C02": dict(cat="fault_enumeration", sec="4/C02", tech="runtime monitoring: exhaustive single-fault injection on wire strings, Err-or-original oracle",
-   text="For each base frame every single-character substitution (all 256 values at every position), deletion, duplication, adjacent transposition and proper prefix is decoded by the real decoder; the oracle accepts only Err or the original frame. Wrong-length and wrong-checksum strings of valid shape must be rejected with the matching error kind. The fault space per base frame is enumerated completely; base frames are hand-picked, seeded random and 'nested' frames whose suffix is itself a valid frame; generated wrong-length strings include over-long ones whose length field is right modulo 256.",
+   text="For each base frame every single-character substitution (all 256 values at every position), deletion, duplication, adjacent transposition and proper prefix is decoded by the real decoder - twice in a row, and a sample also through Frame::read over a fragmenting reader; the oracle accepts only Err or the original frame, and the same verdict both times. Wrong-length and wrong-checksum strings of valid shape must be rejected with the matching error kind. The fault space per base frame is enumerated completely; base frames are hand-picked, seeded random and 'nested' frames whose suffix is itself a valid frame; generated wrong-length strings include over-long ones whose length field is right modulo 256.",
    note="Trusted: equality on Frame; reference encoder for base strings. Multi-error corruptions are outside the statement."),
  "C03": dict(cat="exploration", sec="4/C03", tech="runtime monitoring: differential oracle (independent parser) over exhaustive short strings + mutated long strings; Miri and ASan legs in the thorough tier",
-   text="Every byte string over a 13-symbol structural alphabet up to length 6/7, every string over a 5-symbol alphabet up to length 11/13 (reaches accepted frames), single- and pair-perturbations of templates and generated strings up to 100 kB are decoded under catch_unwind and compared with an independent parser: result class, error fields, precedence, and re-encoding of accepted strings. Thorough adds a Miri leg and an AddressSanitizer leg over the decoder workload.",
+   text="Every byte string over a 13-symbol structural alphabet up to length 6/7, every string over a 5-symbol alphabet up to length 11/13 (reaches accepted frames), single- and pair-perturbations of templates, 26 multi-byte (non-ASCII digit / letter / space / line-separator / ill-formed) sequences substituted and inserted at every template position, lines with the largest possible byte sums, and generated strings up to 100 kB are decoded under catch_unwind and compared with an independent parser: result class, error fields, precedence, and re-encoding of accepted strings. Every fourth generated string also goes through Frame::read, back to back on one thread. Thorough adds a Miri leg and an AddressSanitizer leg over the decoder workload.",
    note="Trusted: the reference parser; regex crate is executed, not modelled. Sanitizer legs cover only the inputs they run."),
  "C04": dict(cat="exploration", sec="4/C04", tech="runtime monitoring: code-table oracle + identity check over an exhaustive (type, first byte, length) sweep",
-   text="All 256 types x 256 first bytes x lengths {0,1,2,3,16,255} x 8 addresses and all 65536 addresses for each of the 30 codes are converted Frame->Message->Frame by the real code; the monitor checks identity and compares the classification with the harness's own transcription of the protocol table.",
+   text="All 256 types x 256 first bytes x lengths {0,1,2,3,16,255} x 8 addresses, every one-byte code (and its first byte under the neighbouring types) at every data length 2..=255, and all 65536 addresses for each of the 30 codes are converted Frame->Message->Frame by the real code; the monitor checks identity and compares the classification with the harness's own transcription of the protocol table.",
    note="Trusted: the table in harness/src/refs.rs (Appendix A of DESIGN.md)."),
  "C05": dict(cat="exploration", sec="4/C05", tech="runtime monitoring: wire round-trip oracle over all specific messages + injectivity map",
    text="Every specific message kind x state/operation x address (all 65536 for every code in thorough), all chunk counts, data chunks of every length 0..=255 go message->frame->bytes->frame->message through the real code and must come back equal; a map from wire bytes to message detects two messages sharing an encoding.",
    note="Trusted: Message equality; reference wire encoder used as a cross-check."),
  "C06": dict(cat="exploration", sec="4/C06", tech="runtime monitoring: lockstep bit-level page model, full pixel scan after every operation, catch_unwind for bounds",
-   text="On every page size in an exhaustive box (incl. 0 and heights not a multiple of 8), the 11 real sizes, and random op sequences on fresh and borrowed pages, each set/clear/set-all is mirrored in a boolean-matrix model; after every operation all pixels, id, dims, length and padding are compared. Out-of-bounds coordinates (incl. the unused high bits of a column and u32::MAX) must panic and leave every byte unchanged.",
+   text="On every page size in an exhaustive box (incl. 0 and heights not a multiple of 8), the 11 real sizes, and random op sequences on fresh and borrowed pages (four of them 100 000 operations long), each set/clear/set-all is mirrored in a boolean-matrix model; after every operation all pixels, id, dims, length and padding are compared. Out-of-bounds coordinates (incl. the unused high bits of a column and u32::MAX) must panic and leave every byte unchanged, and the page stays usable afterwards. A fill or clear after exactly 255..131072 writes (the values where a narrow tally of writes returns to zero) must do what it always does.",
    note="Trusted: the page model in refs.rs. Unused high bits after set_all_pixels are deliberately not constrained."),
  "C07": dict(cat="exploration", sec="4/C07", tech="runtime monitoring: independent layout oracle over an exhaustive size box, every pixel individually",
-   text="For every size in the box (q 41x34, t 131x66) plus real and large sizes, the new page's bytes, the exact byte/bit of every pixel, and from_bytes acceptance for every length around the expected one (Vec and slice) are compared with an independent layout formula.",
+   text="For every size in the box (q 101x49, t 257x137) plus real and large sizes (up to 70000 columns / 4000 rows, and 1 MiB pages), the new page's bytes, the exact byte/bit of every pixel (on blank pages and over borrowed bytes), and from_bytes acceptance for every length around the expected one and for lengths that match only modulo 2^8 / 2^16 / 2^24 (Vec and slice) are compared with an independent layout formula; from_bytes is probed with dimensions up to u32::MAX. Equality with from_bytes(as_bytes()) and with a new page is checked after set/clear/fill histories, clones are equal and independent, and a page is intact after refused out-of-bounds accesses.",
    note="Trusted: refs.rs layout arithmetic."),
  "C08": dict(cat="exploration", sec="4/C08", tech="runtime monitoring: postcondition monitor on the real controller driving real virtual signs from explored prior states",
-   text="Prior states are the states reached by the C13 breadth-first explorer (all 13 protocol states, half-finished transfers, other types) and by abandoning real controller calls at every message index; from each the real Sign configures and sends page lists to the real VirtualSign, and the monitor checks the postconditions of the statement on the sign's accessors. Page lists just below and just above 65536 chunks (where the 16-bit chunk count wraps) are sent for every sign type.",
+   text="Prior states are the states reached by the C13 breadth-first explorer (all 13 protocol states, half-finished transfers, other types) and by abandoning real controller calls at every message index; from each the real Sign configures and sends page lists to the real VirtualSign, and the monitor checks the postconditions of the statement on the sign's accessors. Page lists just below and just above 65536 chunks (where the 16-bit chunk count wraps) are sent for every sign type. Other signs on the bus are idle or themselves left in the middle of a transfer. Runs with a Trace-level log sink installed (thorough: again with logging off).",
    note="Trusted: VirtualSign accessors; forged blocks (genuine id, other dims) are outside the contract clause."),
  "C09": dict(cat="exploration", sec="4/C09", tech="runtime monitoring: online trace automaton over the recorded bus log",
-   text="A recording bus logs every message the real controller emits for many types/addresses/page lists/retry patterns; a trace checker verifies request-ack-before-data, per-item offsets 0,16,32.., chunk sizes, concatenation == item bytes, count == chunks since the request, query right after count, the config block == the type's block, and nothing of a transfer after a request that was NOT acknowledged (on attempts 1, 2 and 3). Transfers just below and above 65536 chunks are included. The same predicates are applied to calls made with a Sign object that has already performed another call (succeeded or given up; often the same pages again).",
+   text="A recording bus logs every message the real controller emits for many types/addresses/page lists/retry patterns; a trace checker verifies request-ack-before-data, per-item offsets 0,16,32.., chunk sizes, concatenation == item bytes, count == chunks since the request, query right after count, the config block == the type's block, and nothing of a transfer after a request that was NOT acknowledged (on attempts 1, 2 and 3). Transfers just below and above 65536 chunks are included. The same predicates are applied to calls made with a Sign object that has already performed another call (succeeded or given up; often the same pages again). Runs with a Trace-level log sink installed (thorough: again with logging off).",
    note="Trusted: the trace automaton; the harness's transcription of the 11 blocks."),
  "C10": dict(cat="fault_enumeration", sec="4/C10", tech="runtime monitoring: lockstep reference protocol machine inside an adversarial scripted bus, exhaustive reply-script DFS",
-   text="Every reply script over a 44-symbol alphabet is enumerated depth-first to the natural end of each controller operation (polling bounded); at every step the message the real controller emits and its final outcome are compared with an independent flat-state-machine model of the documented protocol. The same enumeration is repeated on Sign objects that have already performed one of 26 canned earlier calls (successful, given up after three failures, abandoned on a bus error, flip-style query unanswered, ...), each later call against a fresh reference machine, so that nothing a call leaves behind in the object can stand in for a reply.",
+   text="Every reply script over a 44-symbol alphabet is enumerated depth-first to the natural end of each controller operation (polling bounded); at every step the message the real controller emits and its final outcome are compared with an independent flat-state-machine model of the documented protocol. The same enumeration is repeated on Sign objects that have already performed one of 26 canned earlier calls (successful, given up after three failures, abandoned on a bus error, flip-style query unanswered, ...), each later call against a fresh reference machine, so that nothing a call leaves behind in the object can stand in for a reply. Bus errors come as six kinds of error object (custom, io::Error Interrupted / TimedOut / WouldBlock, wrapped io::Errors). One Sign object is used for 70 000 calls in a row, and nothing may be sent when a Sign is dropped. Runs with a Trace-level log sink installed (thorough: again with logging off).",
    note="Trusted: refctl (Appendix C). Polling loops explored to a bound."),
  "C11": dict(cat="fault_enumeration", sec="4/C11", tech="runtime monitoring: model-free trace invariants on the same exhaustive reply-script conversations + random scripts",
-   text="Invariants I1-I6 (no unconfirmed success, fail-stop, <=3 attempts each after a failed report, own address on everything emitted, foreign replies never treated as own, fail-stop inside the reset handshake) are evaluated on every enumerated conversation (fresh Sign objects, and Sign objects reused after each of 26 canned earlier calls) and on random scripts / random call sequences on one object, without consulting the reference machine.",
+   text="Invariants I1-I6 (no unconfirmed success, fail-stop, <=3 attempts each after a failed report, own address on everything emitted, foreign replies never treated as own, fail-stop inside the reset handshake) are evaluated on every enumerated conversation (fresh Sign objects, and Sign objects reused after each of 26 canned earlier calls) and on random scripts / random call sequences on one object, without consulting the reference machine. Bus errors of six kinds, 70 000 calls on one object, silence on drop and the logging modes as for C10.",
    note="Trusted: the invariant checker only."),
  "C12": dict(cat="exploration", sec="4/C12", tech="runtime monitoring: catch_unwind around every delivery in a BFS over real sign states + long hostile random walks, checked and plain profiles",
-   text="Every transition of the breadth-first state exploration and of long random/directed walks (all chunk lengths, arbitrary config blocks, counter saturation, lost/extra/duplicate chunks, buses of 1-3 signs, a trace-level log sink) runs under catch_unwind in a build with overflow checks on; a panic is the violation.",
+   text="Every transition of the breadth-first state exploration and of long random/directed walks (all chunk lengths, arbitrary config blocks, counter saturation, lost/extra/duplicate chunks, buses of 1-3 signs, a trace-level log sink) runs under catch_unwind in a build with overflow checks on; a panic is the violation. The thorough tier repeats the quick workload in the plain release profile and with logging off.",
    note="Trusted: nothing beyond catch_unwind; bounded exploration + random walks."),
  "C13": dict(cat="exploration", sec="4/C13", tech="runtime monitoring: lockstep reference state machine during BFS over the real implementation's state to a fixed point under bounds",
-   text="The real VirtualSign is explored breadth-first (its own Hash/Eq) to a fixed point under bounds with a wide alphabet; after every transition reply, state, type and pages are compared with an independent sign-side machine, plus model-free page invariants. Random walks cover beyond the bounds.",
+   text="The real VirtualSign is explored breadth-first (its own Hash/Eq) to a fixed point under bounds with a wide alphabet; after every transition reply, state, type and pages are compared with an independent sign-side machine, plus model-free page invariants. Random walks cover beyond the bounds. After a goodbye or a completed reset the sign must equal (and hash like) a newly made one. Two walks of 200 000 messages keep one sign object alive far beyond any 16-bit counter. Runs with a Trace-level log sink installed, so that log-statement arguments are evaluated (thorough: again with logging off).",
    note="Trusted: refsign (Appendix B); in undocumented corners it encodes pinned behaviour (regression oracle)."),
  "C14": dict(cat="exploration", sec="4/C14", tech="runtime monitoring: two-run non-interference monitor (bus vs solo shadow signs) over random interleavings + BFS of a 2-sign bus",
-   text="Buses of 1-4 real virtual signs receive interleaved histories; before/after snapshots and solo shadow copies check that only the addressed sign changes, replies match the solo sign and carry its address, absent addresses get silence, and unaddressed data affects only receiving signs.",
+   text="Buses of 1-4 real virtual signs receive interleaved histories; before/after snapshots and solo shadow copies check that only the addressed sign changes, replies match the solo sign and carry its address, absent addresses get silence, and unaddressed data affects only receiving signs. Three histories of 100 000 messages keep one bus alive; logging modes as for C13.",
    note="Trusted: VirtualSign as its own solo reference."),
  "C15": dict(cat="fault_enumeration", sec="4/C15", tech="runtime monitoring: instrumented Read/Write doubles with scripted fragmentation and faults, conservation checker on the tape",
-   text="Streams of 1-4 lines with trailing bytes are read through a scripted reader: every composition of short streams, interrupts/errors/EOF at every call index; the checker verifies bytes consumed == first line exactly, result == decode(line), order, and error surfacing; maximum-length (255-byte) frames back to back are included. Writes go through a scripted sink (short writes, interrupts, Ok(0), hard error at every index).",
+   text="Streams of 1-4 lines with trailing bytes are read through a scripted reader: every composition of short streams, interrupts/errors/EOF at every call index; the checker verifies bytes consumed == first line exactly, result == decode(line), order, and error surfacing; maximum-length (255-byte) frames back to back are included. Writes go through a scripted sink (short writes, interrupts, Ok(0), hard error at every index). Lines that repeat the previous line's frame in another spelling, wrong terminators made of CR / blank / tab, maximum-length lines through 1..6 interrupted reads, hard errors of all 17 stable io::ErrorKinds, sessions of several frames written to one sink, and 70 000 lines through one reader / 70 000 frames into one sink are included.",
    note="Trusted: the tape bookkeeping; reference codec."),
  "C16": dict(cat="fault_enumeration", sec="4/C16", tech="runtime monitoring: instrumented serial port event log + trace predicates, fault at every port call",
-   text="Every message kind with parameter sweeps goes through the real SerialSignBus on an instrumented port; the log checker verifies bytes written == reference encoding exactly once, a read iff a reply is due, exactly one line consumed, reply == reference classification, and errors for write/read failures and undecodable replies. Sessions of several messages through ONE bus instance (write failure at every call index) catch anything a message leaves behind for the next one.",
+   text="Every message kind with parameter sweeps goes through the real SerialSignBus on an instrumented port; the log checker verifies bytes written == reference encoding exactly once, a read iff a reply is due, exactly one line consumed, reply == reference classification, and errors for write/read failures and undecodable replies. Sessions of several messages through ONE bus instance (write failure at every call index) catch anything a message leaves behind for the next one. Replies equal to the request's own frame, replies cut short mid-session (the session goes on), hard errors of all io::ErrorKinds, the bus's drop as part of the record, and one bus instance used for 70 000 messages are included. Logging modes as for C13.",
    note="Trusted: refcodec + reftable."),
  "C17": dict(cat="exploration", sec="4/C17", tech="runtime monitoring: two-run transparency monitor (serial duplex path vs direct path) + bridge trace predicates",
-   text="Operation sequences run once through Sign->SerialSignBus->byte duplex->Odk->VirtualSignBus and once directly; success/failure, flip style and all sign observables must agree after every operation; the bridge log must forward exactly the decoded frames, consume exactly the line that was sent and write back exactly when the bus replied; raw messages (incl. 255-byte frames) go down both paths; undecodable lines give Communication errors without touching the bus.",
+   text="Operation sequences run once through Sign->SerialSignBus->byte duplex->Odk->VirtualSignBus and once directly; success/failure, flip style and all sign observables must agree after every operation; the bridge log must forward exactly the decoded frames, consume exactly the line that was sent and write back exactly when the bus replied; raw messages (incl. 255-byte frames) go down both paths; undecodable lines give Communication errors without touching the bus. Every 16th scenario runs over a line whose writes block longer than the pacing pause; 70 000 unpaced messages go down both paths through one serial bus and one bridge. Logging modes as for C13.",
    note="Trusted: the in-process duplex; only success/failure (not error class) compared across paths."),
  "C18": dict(cat="exploration", sec="4/C18", tech="runtime monitoring: monotonic timestamps at the port boundary; lower bounds on paced gaps, min-over-trials upper bound on unpaced gaps",
-   text="Instant timestamps taken inside the port's read/write and around process_message give the gaps; paced exchanges (data chunks; in-progress reports received in answer to ANY request kind) must show >=30 ms / >=100 ms on every trial; every other sent kind and every other (request, reply) pair must show a minimum over trials below 30 ms; a data chunk after which the port's flush fails must still be followed by 30 ms of silence. Random sessions of 3-6 mixed messages through one bus instance check that pacing depends on the current exchange only; ports whose write / read calls block for 10-120 ms check that the delays run from the END of the write / read. Lower bounds cannot false-alarm; the upper side uses min over repeated trials.",
+   text="Instant timestamps taken inside the port's read/write and around process_message give the gaps; paced exchanges (data chunks; in-progress reports received in answer to ANY request kind) must show >=30 ms / >=100 ms on every trial; every other sent kind and every other (request, reply) pair must show a minimum over trials below 30 ms; a data chunk after which the port's flush fails must still be followed by 30 ms of silence. Random sessions of 3-6 mixed messages through one bus instance check that pacing depends on the current exchange only; ports whose write / read calls block for 10-120 ms check that the delays run from the END of the write / read. Lower bounds cannot false-alarm; the upper side uses min over repeated trials. Look-alike replies (0x13 / 0x11 in frames that are not state reports) must not be delayed; two sessions keep one bus alive through 300 messages. Logging modes as for C13.",
    note="Trusted: std Instant monotonicity and thread::sleep never returning early."),
  "C19": dict(cat="exploration", sec="4/C19", tech="runtime monitoring: field-arithmetic oracle on all types + exhaustive (family,id) sweep + virtual sign as downstream consumer",
-   text="All 11 types: block length, round trip, field arithmetic vs dimensions, and a virtual sign configured with the block — freshly, after a failed configuration as any other type, or after another block in the same transfer — accepts exactly a page of dimensions(); an unsupported block after a supported one leaves the sign without a recorded type. All 65536 (family,id) pairs x tails and all lengths 0..=40 are decoded under catch_unwind and compared with the harness's own list.",
+   text="All 11 types: block length, round trip, field arithmetic vs dimensions, and a virtual sign configured with the block — freshly, after a failed configuration as any other type, or after another block in the same transfer — accepts exactly a page of dimensions(); an unsupported block after a supported one leaves the sign without a recorded type. All 65536 (family,id) pairs x tails and all lengths 0..=40 are decoded under catch_unwind and compared with the harness's own list. The recorded type is followed through failed, abandoned and completed pixel transfers; lengths that are 16 only modulo 2^8 / 2^16 / 2^24 are rejected.",
    note="Trusted: harness list of 11 (family,id,w,h)."),
  "C20": dict(cat="fault_enumeration", sec="4/C20", tech="runtime monitoring: instrumented serial device recording settings calls, exhaustive prior settings x fault points",
-   text="All 864 prior settings x 3 entry points x (no fault + 4 fault points), and all 7 error kinds (incl. Interrupted) at every fault point, are executed on an instrumented device whose log survives the move into the constructor; final settings, applied timeout, error propagation and absence of data I/O are checked; sub-millisecond, fractional and very long caller timeouts must be applied exactly; one-shot and two-shot (transient) refusals at every fault point must end either in an error or in the full required configuration. Complete enumeration.",
+   text="All 864 prior settings x 3 entry points x (no fault + 4 fault points), and all 7 error kinds (incl. Interrupted) at every fault point, are executed on an instrumented device whose log survives the move into the constructor; final settings, applied timeout, error propagation and absence of data I/O are checked; sub-millisecond, fractional and very long caller timeouts must be applied exactly; one-shot and two-shot (transient) refusals at every fault point must end either in an error or in the full required configuration. Complete enumeration. One port object is configured 70 000 times in a row.",
    note="Trusted: the instrumented device."),
 }
 
